@@ -25,16 +25,17 @@ import (
 
 type c15e3Sender struct{}
 
-func (c15e3Sender) onHasConnectionData()                                                 {}
-func (c15e3Sender) onHasStreamData(protocol.StreamID, *SendStream)                       {}
+func (c15e3Sender) onHasConnectionData()                                                {}
+func (c15e3Sender) onHasStreamData(protocol.StreamID, *SendStream)                      {}
 func (c15e3Sender) onHasStreamControlFrame(protocol.StreamID, streamControlFrameGetter) {}
-func (c15e3Sender) onStreamCompleted(protocol.StreamID)                                  {}
+func (c15e3Sender) onStreamCompleted(protocol.StreamID)                                 {}
 
 var errC15E3Closed = errors.New("c15e3: connection closed")
 
 type c15e3Caller struct {
 	name    string
 	started int // global sequence number of the moment OpenStreamSync was called (0: not yet)
+	waiting int // sequence number of the moment the call was first seen waiting (0: never waited)
 	ret     bool
 	id      protocol.StreamID
 	err     error
@@ -45,8 +46,9 @@ type c15e3World struct {
 	frames   []wire.Frame
 	callers  []*c15e3Caller
 	seq      int
-	granted  int // largest MAX_STREAMS value delivered
-	closed   bool
+	granted  int  // largest MAX_STREAMS value delivered
+	closed   bool // CloseWithError has returned
+	closing  bool // CloseWithError has been called (its effects may be visible)
 	cancels  map[string]bool
 	accepted []protocol.StreamID
 	acceptEr error
@@ -56,23 +58,40 @@ type c15e3World struct {
 
 // c15e3Variant selects the thread mix.
 type c15e3Variant struct {
-	Name      string
-	Callers   int  // OpenStreamSync callers (the second one is cancellable)
-	Events    []string
-	Close     bool // a CloseWithError thread
-	Acceptor  bool
-	Uni       bool
+	Name       string
+	Callers    int // OpenStreamSync callers (the second one is cancellable)
+	Events     []string
+	Close      bool // the connection closes its streams map ...
+	CloseAfter int  // ... after this many events
+	Acceptor   bool
+	Uni        bool
 }
 
-var c15e3Variants = []c15e3Variant{
-	{Name: "3callers-2credits-cancel", Callers: 3, Events: []string{"max1", "cancel", "max2"}},
-	{Name: "3callers-3credits", Callers: 3, Events: []string{"max1", "max3"}},
-	{Name: "2callers-stale-max", Callers: 2, Events: []string{"max2", "max1", "max2"}},
-	{Name: "3callers-close", Callers: 3, Events: []string{"max1"}, Close: true},
-	{Name: "2callers-cancel-close", Callers: 2, Events: []string{"cancel", "max1"}, Close: true},
-	{Name: "acceptor-incoming-close", Callers: 1, Events: []string{"incoming", "max1", "incoming"}, Close: true, Acceptor: true},
-	{Name: "uni-3callers-2credits-cancel", Callers: 3, Events: []string{"max1", "cancel", "max2"}, Uni: true},
-}
+var c15e3Variants = func() []c15e3Variant {
+	base := []c15e3Variant{
+		{Name: "3callers-2credits-cancel", Callers: 3, Events: []string{"max1", "cancel", "max2"}},
+		{Name: "3callers-3credits", Callers: 3, Events: []string{"max1", "max3"}},
+		{Name: "2callers-stale-max", Callers: 2, Events: []string{"max2", "max1", "max2"}},
+		{Name: "3callers-close", Callers: 3, Events: []string{"max1"}, Close: true},
+		{Name: "2callers-cancel-close", Callers: 2, Events: []string{"cancel", "max1"}, Close: true},
+		{Name: "acceptor-incoming-close", Callers: 1, Events: []string{"incoming", "max1", "incoming"}, Close: true, Acceptor: true},
+		{Name: "uni-3callers-2credits-cancel", Callers: 3, Events: []string{"max1", "cancel", "max2"}, Uni: true},
+	}
+	var out []c15e3Variant
+	for _, v := range base {
+		if !v.Close {
+			out = append(out, v)
+			continue
+		}
+		for pos := 0; pos <= len(v.Events); pos++ {
+			c := v
+			c.CloseAfter = pos
+			c.Name = fmt.Sprintf("%s@%d", v.Name, pos)
+			out = append(out, c)
+		}
+	}
+	return out
+}()
 
 func c15e3Scenario(v c15e3Variant) func() *sched.Scenario {
 	return func() *sched.Scenario {
@@ -121,13 +140,13 @@ func c15e3Scenario(v c15e3Variant) func() *sched.Scenario {
 			case "max1", "max2", "max3":
 				n := int(e[3] - '0')
 				ev = append(ev, func() {
-					w.m.HandleMaxStreamsFrame(&wire.MaxStreamsFrame{Type: st, MaxStreamNum: protocol.StreamNum(n)})
-					if n > w.granted {
+					if n > w.granted { // model first: the call's effects may become visible before it returns
 						w.granted = n
 					}
+					w.m.HandleMaxStreamsFrame(&wire.MaxStreamsFrame{Type: st, MaxStreamNum: protocol.StreamNum(n)})
 				})
 			case "cancel":
-				ev = append(ev, func() { cancel(); w.cancels["B"] = true })
+				ev = append(ev, func() { w.cancels["B"] = true; cancel() })
 			case "incoming":
 				ev = append(ev, func() {
 					id := protocol.StreamID(1 + 4*w.incoming) // server-initiated bidirectional
@@ -140,10 +159,18 @@ func c15e3Scenario(v c15e3Variant) func() *sched.Scenario {
 			f := f
 			// the run loop handles no frames after the connection has closed its streams map
 			ev[i] = func() {
-				if !w.closed {
+				if !w.closing {
 					f()
 				}
 			}
+		}
+		if v.Close {
+			// frames are handled and the streams map is closed by the same goroutine (the
+			// connection's run loop), so the close is a step of the event thread; it may come
+			// after any number of the events (the remaining ones are then never handled)
+			closeStep := func() { w.closing = true; w.m.CloseWithError(errC15E3Closed); w.closed = true }
+			pos := min(v.CloseAfter, len(ev))
+			ev = append(append(append([]func(){}, ev[:pos]...), closeStep), ev[pos:]...)
 		}
 		threads = append(threads, sched.Thread{Name: "ev", Steps: ev})
 		if v.Acceptor {
@@ -160,9 +187,6 @@ func c15e3Scenario(v c15e3Variant) func() *sched.Scenario {
 				}
 				w.acceptEr = err
 			}}})
-		}
-		if v.Close {
-			threads = append(threads, sched.Thread{Name: "close", Steps: []func(){func() { w.m.CloseWithError(errC15E3Closed); w.closed = true }}})
 		}
 		check := func(final bool, blocked []string) *explore.Fail {
 			// ids handed out so far: strictly increasing in call order, right type, within the limit
@@ -187,8 +211,8 @@ func c15e3Scenario(v c15e3Variant) func() *sched.Scenario {
 				// FIFO: a caller served with a lower id must not have called later than an
 				// uncancelled caller that was served with a higher id while both were waiting
 				for _, d := range got[i+1:] {
-					if d.started < c.started && !w.cancels[d.name] && !w.cancels[c.name] {
-						return explore.Failf("e3:not-fifo", "%s: caller %s (called %d-th) got stream %d, caller %s (called %d-th) got stream %d", v.Name, c.name, c.started, c.id, d.name, d.started, d.id)
+					if d.waiting != 0 && c.waiting != 0 && d.waiting < c.waiting && !w.cancels[d.name] && !w.cancels[c.name] {
+						return explore.Failf("e3:not-fifo", "%s: caller %s (began to wait %d-th) got stream %d, caller %s (began to wait %d-th) got stream %d", v.Name, c.name, c.waiting, c.id, d.name, d.waiting, d.id)
 					}
 				}
 			}
@@ -202,7 +226,7 @@ func c15e3Scenario(v c15e3Variant) func() *sched.Scenario {
 				if errors.Is(c.err, context.Canceled) && !w.cancels[c.name] {
 					return explore.Failf("e3:spurious-cancel", "%s: caller %s returned context.Canceled without a cancellation", v.Name, c.name)
 				}
-				if errors.Is(c.err, errC15E3Closed) && !w.closed {
+				if errors.Is(c.err, errC15E3Closed) && !w.closing {
 					return explore.Failf("e3:spurious-close-error", "%s: caller %s returned the close error before CloseWithError", v.Name, c.name)
 				}
 			}
@@ -236,12 +260,23 @@ func c15e3Scenario(v c15e3Variant) func() *sched.Scenario {
 			return nil
 		}
 		return &sched.Scenario{
+			Observe: func(blocked []string) {
+				for _, b := range blocked {
+					for _, c := range w.callers {
+						if c.name == b && c.waiting == 0 {
+							w.seq++
+							c.waiting = w.seq
+						}
+					}
+				}
+			},
 			Threads:   threads,
 			AfterStep: func() *explore.Fail { return check(false, nil) },
 			Final:     func(blocked []string) *explore.Fail { return check(true, blocked) },
 			Cleanup: func() {
 				cancel()
-				if !w.closed { // the connection closes its streams map exactly once
+				if !w.closing { // the connection closes its streams map exactly once
+					w.closing = true
 					w.m.CloseWithError(errC15E3Closed)
 					w.closed = true
 				}
